@@ -13,7 +13,7 @@ import vlib
 PROPERTIES = ["C06", "C07", "C16"]
 
 # deviations of spec/Staking.tla that describe the CURRENT tree (strict lane / generation)
-DEVS = ["L3", "LEAK", "ACT", "L17", "WINDOW", "PCHOOK"]
+DEVS = ["ALWAYS", "L17"]
 
 WORLDS = {
     # three operators, two genesis validators (o1: key k4 power 2, o2: key k2 power 1), five keys
@@ -227,7 +227,7 @@ def _leads(dm, cfg, timeout):
 
 def _run(tier, seed, harness, d):
     res = {"family": "staking", "mc": [], "tags": [], "samples": [], "tag_universe": TAG_UNIVERSE, "assumptions": ASSUMPTIONS}
-    # 1. exhaustive check of the properties on the INTENDED design (DEVS = {}), pure TLA+ numbers
+    # 1. exhaustive check of the properties on the model of the CURRENT (repaired) tree, pure TLA+ numbers
     dm = os.path.join(d, "mc")
     os.makedirs(dm)
     vlib.stage_specs(dm, with_override=False)
@@ -240,12 +240,12 @@ def _run(tier, seed, harness, d):
         if m["violated"]:
             raise vlib.Infra(f"model counterexample in {cfg}: {m['violated']} (lead, not a verdict)\n" + m["out"][-3000:])
         res["mc"].append(m)
-    # 1b. vacuity guard for the listed deviations: the model of the CURRENT tree must break the properties
+    # 1b. vacuity / regression guard: the model of the PRE-FIX tree (c_DEVS_guard) must break the properties
     if not skip_mc:
         m = vlib.tlc_mc(dm, "MC_Staking_q.tla", "MC_Staking_dev.cfg", timeout=1500)
         res["mc_dev"] = {"cfg": "MC_Staking_dev.cfg", "violated": m["violated"], "states": m["states"], "wall_s": m["wall_s"]}
         if not m["violated"]:
-            raise vlib.Infra("MC_Staking_dev.cfg: the model with the code's deviations satisfies every property (the deviation list is vacuous)")
+            raise vlib.Infra("MC_Staking_dev.cfg: the model of the pre-fix tree satisfies every property (the invariants no longer see the repaired defects)")
     # 2..4 per world: generate from the model of the current tree, replay on the real code, validate
     nbeh = 120 if tier == "quick" else 800
     counts = collections.Counter()
